@@ -159,6 +159,9 @@ def scenario(n_clients, with_bg, answer_order, chooser, sync_timeout=2.0, timeou
                 payload = "p%d" % i
                 res = AR(conn)
                 res._seq_for_harness = None
+                # the result's own lock is held across traced lines of AsyncResult.__call__: under the line scheduler it must be a
+                # scheduler lock, or a thread parked while holding it would make another thread block for real
+                res._lock = VLock(S, "result-lock")
                 out["res_obj"][i] = res
                 # the statements of Connection.async_request, with our own result object so that it can be identified later
                 try:
@@ -170,7 +173,14 @@ def scenario(n_clients, with_bg, answer_order, chooser, sync_timeout=2.0, timeou
                 if i in raising_callback:
                     def boom(r_, i=i):
                         raise CallbackBoom("callback of client %d" % i)
-                    res.add_callback(boom)
+                    try:
+                        res.add_callback(boom)
+                    except CallbackBoom:
+                        # the reply had already been dispatched by another thread: add_callback runs the callback at once, in this
+                        # (the registering) thread, and its error surfaces here - in the thread that owns the callback's request
+                        out["results"][i] = "EXC:CallbackBoom"
+                        out["return_time"][i] = S.now
+                        return
                 res.set_expiry(sync_timeout if timeouts is None else timeouts[i])
                 tmo = sync_timeout if timeouts is None else timeouts[i]
                 if tmo is not None:
